@@ -1,3 +1,95 @@
-/-  C20/Theorems — the ledger for property C20 (every theorem here is audited).  Placeholder. -/
+/-
+  C20/Theorems — ledger for property C20.
+-/
+import OttoVerif.C20.Model
+import OttoVerif.C20.GenFacts
 namespace OttoVerif.C20.Thm
+open OttoVerif.C20
+variable {Sh H O : Type}
+
+theorem alone_step (sys : Sys Sh H O) (sh : Sh) (i n : Nat) (h : H) (os : List O) :
+    alone sys sh i (n+1) (h, os) = alone sys sh i n ((sys.step i sh h).1, os ++ [(sys.step i sh h).2]) := rfl
+
+/-- C20.interleaving_independent: for EVERY schedule, every runtime ends with the heap and the output
+    trace it would have had running its own steps alone – whatever the interleaving. -/
+theorem interleaving_independent (sys : Sys Sh H O) (sh : Sh) :
+    ∀ (sched : List Nat) (w : World H O) (i : Nat),
+      ((run sys sh sched w).heap i, (run sys sh sched w).out i) =
+        alone sys sh i (count i sched) (w.heap i, w.out i) := by
+  intro sched
+  induction sched with
+  | nil => intro w i; rfl
+  | cons j rest ih =>
+    intro w i
+    simp only [run]
+    rw [ih]
+    by_cases hji : j = i
+    · subst hji
+      simp only [count, if_true, World.upd]
+      rw [Nat.add_comm, alone_step]
+    · have hij : ¬ i = j := fun h => hji h.symm
+      simp only [count, hji, if_false, Nat.zero_add, World.upd, hij]
+
+/-- two schedules with the same number of steps per runtime are indistinguishable -/
+theorem schedule_irrelevant (sys : Sys Sh H O) (sh : Sh) (s1 s2 : List Nat) (w : World H O) (i : Nat)
+    (h : count i s1 = count i s2) :
+    ((run sys sh s1 w).heap i, (run sys sh s1 w).out i) = ((run sys sh s2 w).heap i, (run sys sh s2 w).out i) := by
+  rw [interleaving_independent, interleaving_independent, h]
+
+/-- C20.script_reuse: a compiled Script is part of the shared, never-written state: evaluating it
+    again from an equal heap gives an equal result, on any runtime and after any other activity. -/
+theorem script_reuse (sys : Sys Sh H O) (sh : Sh) (sched1 sched2 : List Nat) (w1 w2 : World H O) (i j n : Nat)
+    (hstep : sys.step i = sys.step j)              -- the same program on both runtimes
+    (hheap : (run sys sh sched1 w1).heap i = (run sys sh sched2 w2).heap j) :
+    (alone sys sh i n ((run sys sh sched1 w1).heap i, [])) = (alone sys sh j n ((run sys sh sched2 w2).heap j, [])) := by
+  rw [hheap]
+  generalize (run sys sh sched2 w2).heap j = h0
+  generalize ([] : List O) = os
+  induction n generalizing h0 os with
+  | zero => rfl
+  | succ n ih => simp only [alone_step, hstep]; exact ih _ _
+
+example : count 1 [0, 1, 1, 2, 1] = 3 := by decide
+
+/-! ## Regenerated facts (go/types over the current sources) instantiating H1/H2 -/
+
+/-- F1: package-level variables are written only by `init` functions and by the documented
+    registration API `registry.Register` -/
+def f1Allowed (e : String × String × String × String) : Bool :=
+  e.2.2.2 == "init" || (e.1 == "registry" && e.2.1 == "registry" && e.2.2.2 == "Register")
+
+theorem globals_written_only_at_init : Gen.f1.all f1Allowed = true := by decide
+
+/-- F2: fields of compiled node trees are written only by the compiler (cmpl_parse.go methods of
+    `compiler`), fields of ast nodes only by the parser (methods of `parser`, ParseFileWithSourceMap)
+    and the comment map (methods of Comments/CommentMap, used while parsing), file.File/FileSet only by
+    their construction API -/
+def f2Allowed (e : String × String × String × String) : Bool :=
+  (e.1 == "otto" && e.2.2.1 == "compiler") ||
+  (e.1 == "parser" && (e.2.2.1 == "parser" || e.2.2.2 == "ParseFileWithSourceMap")) ||
+  (e.1 == "ast" && (e.2.2.1 == "Comments" || e.2.2.1 == "CommentMap")) ||
+  (e.1 == "file" && ((e.2.2.1 == "File" && e.2.2.2 == "WithSourceMap") || (e.2.2.1 == "FileSet" && e.2.2.2 == "AddFile")))
+
+theorem shared_trees_written_only_by_constructors : Gen.f2.all f2Allowed = true := by decide
+
+/-- F3: the only package-level variable whose address escapes is the sentinel `nilGetSetObject`,
+    in exactly the known places (where it is stored as a marker and compared, never written through) -/
+theorem address_escapes_expected :
+    Gen.f3 = [("otto", "nilGetSetObject", "", "objectDefineOwnProperty"),
+              ("otto", "nilGetSetObject", "", "toPropertyDescriptor"),
+              ("otto", "nilGetSetObject", "runtime", "newErrorObject"),
+              ("otto", "nilGetSetObject", "runtime", "newErrorObjectError"),
+              ("otto", "nilGetSetObject", "runtime", "newNativeFunctionObject"),
+              ("otto", "nilGetSetObject", "runtime", "newNodeFunctionObject")] := by decide
+
+/-- F4: the only pointer-receiver methods called on package-level variables are the
+    concurrency-safe matching methods of compiled regexps, and the registration API of `underscore` -/
+def f4Allowed (e : String × String × String × String) : Bool :=
+  (e.1 == "underscore" && e.2.1 == "entry") ||
+  e.2.2.1 == "/MatchString" || e.2.2.1 == "/ReplaceAllString" || e.2.2.1 == "/ReplaceAllFunc" ||
+  e.2.2.1 == "/FindStringSubmatch" || e.2.2.1 == "parser/MatchString" ||
+  e.2.2.1 == "/FindStringIndex" || e.2.2.1 == "/FindAllStringSubmatchIndex" || e.2.2.1 == "/FindStringSubmatchIndex"
+
+theorem global_method_calls_readonly : Gen.f4.all f4Allowed = true := by decide
+
 end OttoVerif.C20.Thm
